@@ -440,10 +440,6 @@ fn check_config(e: Ev, su: &Setup, initiator_is_server: bool, uni: bool, id: i12
     assert!(e.kind == EV_NEW && e.id as i128 == id, "C12/mgr.insert_stream/stream_created_with_the_requested_id");
     let send_want = wiring_send_window(decl(&su.peer), s, initiator_is_server, uni);
     let recv_want = wiring_receive_window(decl(&su.local), s, initiator_is_server, uni);
-    // STRICT (fails on the unchanged tree for the half of a unidirectional stream that does not exist: the code
-    // hands `max_data_uni` where the declaring endpoint declared nothing; see core/mgr_stream_limits.rs)
-    assert!(e.a as i128 == send_want, "C03/mgr.insert_stream/send_window_is_what_the_peer_declared_for_this_stream");
-    assert!(e.b as i128 == recv_want, "C04/mgr.insert_stream/receive_window_is_what_we_declared_for_this_stream");
     // RESIDUAL: the same claims for every half that exists (the endpoint sends / receives on the stream)
     assert!(!class_sends(s, initiator_is_server, uni) || e.a as i128 == send_want,
         "C03/mgr.insert_stream/send_window_is_what_the_peer_declared_for_this_stream#outside-known");
@@ -461,6 +457,18 @@ fn check_config(e: Ev, su: &Setup, initiator_is_server: bool, uni: bool, id: i12
     assert!(e.c == e.b, "C04/mgr.insert_stream/desired_window_equals_initial_receive_window");
     assert!((e.d & 1 == 1) == s, "C03/mgr.insert_stream/stream_knows_the_local_role");
     assert!(e.d >> 1 == su.max_send_buffer as u64, "C03/mgr.insert_stream/send_buffer_limit_is_the_configured_one");
+}
+
+/// STRICT form of the two window claims, to be called LAST in a harness (Kani's assert also assumes: whatever
+/// follows a failing assert is only checked for the inputs that satisfy it).  Fails on the unchanged tree for the
+/// half of a unidirectional stream that does not exist: the code hands `max_data_uni` where the declaring
+/// endpoint declared nothing (RFC 9000 18.2; see core/mgr_stream_limits.rs C03/tp.max_data/equals_rfc_18_2_table).
+fn check_config_strict(e: Ev, su: &Setup, initiator_is_server: bool, uni: bool) {
+    let s = su.local_is_server;
+    assert!(e.a as i128 == wiring_send_window(decl(&su.peer), s, initiator_is_server, uni),
+        "C03/mgr.insert_stream/send_window_is_what_the_peer_declared_for_this_stream");
+    assert!(e.b as i128 == wiring_receive_window(decl(&su.local), s, initiator_is_server, uni),
+        "C04/mgr.insert_stream/receive_window_is_what_we_declared_for_this_stream");
 }
 
 /// `StreamManagerState::insert_stream` for the `n`-th stream of a class into an empty container
@@ -503,6 +511,7 @@ fn insert_stream_case(local_is_server: bool, initiator_is_server: bool, uni: boo
     kani::cover!(log_at(0).a != log_at(0).b && log_at(0).a > 0 && log_at(0).b > 0, "reach:distinct_windows");
     kani::cover!(took && x[0] > old.out_total, "reach:credit_through_stream_handles");
     kani::cover!(x[0] == 0 && x[1] == 0, "reach:no_probe");
+    check_config_strict(log_at(0), &su, initiator_is_server, uni);
     core::mem::forget(m);
 }
 
@@ -579,6 +588,9 @@ fn open_local_case(local_is_server: bool, uni: bool) {
     kani::cover!(r.is_ready() && cls.opened + 1 == cls.peer_limit, "reach:last_permitted_stream");
     kani::cover!(was_blocked && r.is_ready(), "reach:resumed_after_max_streams");
     kani::cover!(was_blocked && r.is_pending() && frame_uni != uni && x as i128 > first.ctl.local(frame_uni).peer_limit, "reach:max_streams_of_other_type_does_not_unblock");
+    if r.is_ready() {
+        check_config_strict(log_at(0), &su, local_is_server, uni);
+    }
     core::mem::forget(m);
 }
 
@@ -671,6 +683,12 @@ fn remote_frame_case(local_is_server: bool, uni: bool, kind: u8, k: u64) {
     kani::cover!(r.is_err(), "reach:rejected");
     kani::cover!(r.is_err() && old.ctl.remote(!uni).peer_limit > 2, "reach:rejected_although_other_direction_has_credit");
     kani::cover!(cls.peer_limit == MAX_STREAMS as i128 - 1, "reach:largest_admitted_limit");
+    if r.is_ok() {
+        check_config_strict(log_at(0), &su, peer_is_server, uni);
+        if k >= 1 {
+            check_config_strict(log_at(1), &su, peer_is_server, uni);
+        }
+    }
     core::mem::forget(m);
 }
 
